@@ -54,7 +54,7 @@ type Machine struct {
 var DefaultWeights = map[string]int{
 	"fund": 6, "mintquote": 2, "pay": 2, "deliver": 1, "pollmint": 1, "mint": 3,
 	"swap": 6, "swap_adv": 3, "meltquote": 3, "melt": 4, "melt_adv": 1, "resolve": 2, "pollmelt": 2,
-	"checkstate": 2, "rotate": 1, "restart": 1, "replay": 0, "mint_fault": 1, "swap_fault": 1,
+	"checkstate": 2, "rotate": 1, "restart": 1, "replay": 0, "mint_fault": 1, "swap_fault": 1, "cancel_invoice": 1,
 }
 
 // GenConfig draws a mint configuration.
@@ -275,6 +275,8 @@ func (m *Machine) exec(t *rapid.T, op string) bool {
 		return m.opLockedSpend(t)
 	case "old_keyset_fee":
 		return m.opOldKeysetFee(t)
+	case "cancel_invoice":
+		return m.opCancelInvoice(t)
 	}
 	return false
 }
@@ -399,6 +401,27 @@ func (m *Machine) opPay(t *rapid.T) bool {
 	}
 	ok := m.W.PayInvoice(q)
 	m.logf("pay invoice of mint quote %d: %v", q.Idx, ok)
+	return true
+}
+
+// opCancelInvoice: the node gives an unpaid invoice of a mint quote up (expired unpaid / canceled by the operator; the
+// backends report such an invoice in a state of its own). Nothing was paid: polling the quote and asking for the
+// tokens right afterwards must leave it unpaid - the model's issued-more-than-paid and ledger oracles judge that.
+func (m *Machine) opCancelInvoice(t *rapid.T) bool {
+	w := m.W
+	q := m.pickMintQuote(t, func(q *world.MMintQuote) bool { return !q.PaidExt && q.Internal == 0 && q.Issuances == 0 && q.LockPriv == nil })
+	if q == nil {
+		return false
+	}
+	if !w.Net.CancelInvoice(q.Hash) {
+		return false
+	}
+	m.Count["invoice_canceled_at_the_node"]++
+	w.PollMintQuote(q)
+	outs := w.MakeOutputs(world.Split(q.Amount), w.ActiveID)
+	_, err := w.MintTokens(q, outs, "")
+	m.logf("the node cancels the unpaid invoice of mint quote %d; poll, then mint request: err=%v", q.Idx, err)
+	m.Count["adversarial_reached"]++
 	return true
 }
 
